@@ -20,7 +20,8 @@ CHECKS = {
                 "per call the error kind and which of its own written blobs the returned bytes equal (sha256+length); TLC replays "
                 "every logged call through the same transition function. Byte fidelity of the codecs is conformance-tested per "
                 "enumerated class, not proved, hence level = model checking of the contract + conformance.",
-        "note": "boundaries not exercised: the 256 MB SQL chunk; the 8 MiB outbox chunk only in thorough. One representative byte "
+        "note": "boundary not exercised: the 256 MB SQL chunk. The 8 MiB outbox chunk boundary: all content classes in thorough, "
+                "random content only in quick. One representative byte "
                 "string per (size, content) class. The outbox worker is gated through the database.Database it was given (a closed "
                 "gate = the worker does not run). No faults, no concurrency (C17/C18/C19 cover those). TLC, Go toolchain, sqlite trusted.",
         "technique": "TLA+ layered transition function + ideal store, TLC exhaustive MC, TLC case enumeration and -simulate program "
@@ -57,10 +58,15 @@ def run(ctx):
     # 2. TLC enumerates the static cases and generates programs
     depth = ctx.pick("2", "3")
     g = ctx.tlc("PartStoreStackGen", "PartStoreStack.GenCases.cfg", workers=1, timeout=600, count_mc=False,
-                subst=dict(WNONE, Depth=depth, BigSizes=ctx.pick("FALSE", "TRUE")))
+                subst=dict(WNONE, Depth=depth, BigSizes="TRUE"))
     if not g.ok() or not g.printed:
         raise vlib.Infra("static case generation failed: %s\n%s" % (g.outcome, g.output[-2000:]))
     static = sorted(g.printed, key=lambda c: json.dumps(c, sort_keys=True))
+    BIG = 4 * 1024 * 1024
+    if ctx.quick():
+        # the 8 MiB outbox chunk boundary (B-1, B, B+1) costs 8 MiB of sqlite writes per put: quick keeps it for the
+        # incompressible content class only
+        static = [c for c in static if c["size"] <= BIG or c["content"] == "random"]
     plen = ctx.pick(5, 6)
     nprog = ctx.pick(400, 3000)
     p = ctx.tlc("PartStoreStackGen", "PartStoreStack.GenProgs.cfg", workers=1, timeout=900, count_mc=False,
@@ -79,7 +85,11 @@ def run(ctx):
     branchw = {}
     for x in fw.printed:
         if isinstance(x, dict) and "feat" in x:
-            branchw.setdefault((_semkey(x["sem"]), json.dumps(x["feat"])), x)
+            key = (_semkey(x["sem"]), json.dumps(x["feat"]))
+            old = branchw.get(key)
+            # first = shortest; among equally short ones prefer a program that reads back blob b1 (size class carrier)
+            if old is None or (old["reads1"] == 0 and x["reads1"] > 0 and len(x["prog"]) <= len(old["prog"])):
+                branchw[key] = x
     pool = collections.defaultdict(list)
     for x in progs + list(branchw.values()):
         pool[_semkey(x["sem"])].append(x)
@@ -108,6 +118,20 @@ def run(ctx):
             cov[g2] += 1
         return x
 
+    bigcov = collections.defaultdict(collections.Counter)
+
+    def choose_in(semk, cand, grp):
+        """like choose, but balances only the model branches selected by predicate grp (own counters)"""
+        cov = bigcov[semk]
+        avail = sorted(f for f in set().union(*(x["fset"] for x in cand)) if grp(f))
+        lo = min(cov[f] for f in avail)
+        f = rng.choice([g2 for g2 in avail if cov[g2] == lo])
+        x = rng.choice(sorted((y for y in cand if f in y["fset"]), key=lambda y: json.dumps(y["prog"])))
+        for g2 in x["fset"]:
+            cov[g2] += 1
+            featcov[semk][g2] += 1
+        return x
+
     cases = []
     for c in static:
         semk = _semkey(c["sem"])
@@ -115,8 +139,19 @@ def run(ctx):
         if not cand:
             raise vlib.Infra("no program generated for semantic stack %s" % c["sem"])
         reading = [x for x in cand if x.get("reads1", 0) > 0] or [x for x in cand if x["reads"] > 0] or cand
-        k = 1 if c["size"] > 4 * 1024 * 1024 else per
-        chosen = [choose(semk, reading)] + [choose(semk, cand) for _ in range(k - 1)]
+        if c["size"] > BIG:
+            # multi-chunk outbox entries: EVERY such case reads b1 back through the outbox layer three ways - entry
+            # still pending read without a tx, pending read inside a tx (own or caller's), and after the drain
+            groups = [lambda f: '"get", "nil"' in f and "ob-put" in f and '"b1"' in f,                       # pending, no tx
+                      lambda f: '"get", "nil"' not in f and '"get"' in f and "ob-put" in f and '"b1"' in f,  # pending, in a tx
+                      lambda f: '"get"' in f and "ob-pass" in f and "-hit" in f and '"b1"' in f]             # after the drain
+            chosen = []
+            for grp in groups:
+                gc = [x for x in reading if any(grp(f) for f in x["fset"])]
+                if gc:
+                    chosen.append(choose_in(semk, gc, grp))
+        else:
+            chosen = [choose(semk, reading)] + [choose(semk, cand) for _ in range(per - 1)]
         for x in chosen:
             k2 = dict(c)
             k2["case"] = len(cases) + 1
@@ -288,7 +323,7 @@ def run(ctx):
     ctx.extra["binding_selftest"] = "corrupted read-back (case %d line %d) rejected" % (cid, i)
 
     ctx.assumptions += [
-        "SQL chunk boundary (256 MB) not exercised; outbox chunk boundary (8 MiB) only in thorough",
+        "SQL chunk boundary (256 MB) not exercised; outbox chunk boundary (8 MiB): quick only with random content",
         "one byte string per (size class, content class); b2 is a fixed 5-byte blob of the same content class",
         "sequential caller; the outbox worker runs only inside 'drain' (gated database handle)",
         "inside a transaction that wrote an id, a read of that id may return the committed or the pending content",
